@@ -134,6 +134,25 @@ def run(ctx):
                 w = flip_declared(ref, [n for n in nets if n not in prog["inputs"]], p[1])
                 if w:
                     twin_differs(ctx, "twin-denotation", Net.from_spec(w), B, [(n, n) for n in nets + pins])
+        # the requested module must be the one that is parsed, also when other modules with related names surround it
+        if p[0] == "prog" and p[1] % 4 == 0:
+            other = lambda nm: f"module {nm} (a, y);\n  input a;\n  output y;\n  not U1 (y, a);\nendmodule\n"
+            base0 = vgen.render_program(prog, 0, random.Random(2))
+            multi = other("top_sub") + other("topx") + base0 + other("atop") + other("to")
+            det = {"case": cid, "text": multi[:2500]}
+            c, e = call(cgio.verilog_to_circuit, multi, "top", False, bbl)
+            if e is not None:
+                ctx.side("multi-module-raises", False, "verilog-reader:module-selection", f"selecting module top among several raised {type(e).__name__}: {str(e)[:120]}", det)
+            else:
+                Bm = Net.of(c)
+                ctx.side("multi-module-name", c.name == "top" and Bm.inputs() == set(prog["inputs"]) and Bm.outputs() == set(prog["outputs"]), "verilog-reader:module-selection",
+                         f"asked for module top, got {c.name!r} with ports {sorted(Bm.inputs())}/{sorted(Bm.outputs())}", det)
+                nets_m = [n for n in declared(prog) if n in Bm.types]
+                if Bm.is_acyclic() and len(nets_m) == len(declared(prog)):
+                    prove_equal(ctx, "multi-module-denotation", E, Bm, [(n, n) for n in nets_m], sig="verilog-reader:module-selection", what="the module parsed is not the requested one", detail=det)
+            only = other("topper")
+            c, e = call(cgio.verilog_to_circuit, only, "top", False, bbl)
+            ctx.side("module-prefix-not-found", isinstance(e, ValueError), "verilog-reader:module-selection", f"module `top` requested but only `topper` exists: expected ValueError, got {type(e).__name__ if e else 'a circuit named ' + repr(c.name)}", {"case": cid, "text": only})
         # port lists that disagree with the declarations must be rejected
         base = vgen.render_program(prog, 0, random.Random(1))
         hdr_end = base.index(");")
